@@ -269,6 +269,19 @@ def run_correspondence(harness, prop, tier, seed, outdir):
                 stats=stats, distinct_results=len(results))
 
 
+def concrete_disagreement(meta, d):
+    """A model/implementation disagreement is itself a violating input only for functional
+    properties (the model's answer is the proved-correct one) and only when the two sides differ in
+    more than the KIND of error they report: no property speaks about error kinds, so `err:x` vs
+    `err:y` is a broken correspondence without a failing input."""
+    if not meta.get("functional", False):
+        return False
+    a, b = d["impl"].split(" ")[0], d["model"].split(" ")[0]
+    if a.startswith("err") and b.startswith("err"):
+        return False
+    return True
+
+
 def main():
     args = sys.argv[1:]
     if not args:
@@ -328,7 +341,7 @@ def main():
         if k:
             known_hits.append((k, dict(kind="model-disagreement", case=d["case"], detail="")))
         else:
-            violations.append(("model-disagreement", d["case"], f"impl={d['impl']} model={d['model']}", meta.get("functional", False)))
+            violations.append(("model-disagreement", d["case"], f"impl={d['impl']} model={d['model']}", concrete_disagreement(meta, d)))
 
     # a broken proof / correspondence with no concrete input yet: search harder (L3, thorough budget)
     search_note = ""
@@ -342,7 +355,7 @@ def main():
                     violations.append((v["kind"], v["case"], v["detail"], True))
             for d in c2["disagreements"]:
                 if not match_known(known, "model-disagreement", d["case"]):
-                    violations.append(("model-disagreement", d["case"], f"impl={d['impl']} model={d['model']}", meta.get("functional", False)))
+                    violations.append(("model-disagreement", d["case"], f"impl={d['impl']} model={d['model']}", concrete_disagreement(meta, d)))
 
     wall = time.time() - t0
     nviol = len(violations) + (0 if pr["ok"] else 1)
